@@ -13,7 +13,7 @@
                              (C10_sep_replaced_rejected below, Part B). *)
 From Coq Require Import List Arith NArith.
 From Verif Require Import ChecksumModel ChecksumSpec ChecksumTheorems ExprTreeModel ExprTreeTotal ExprTreeRt ExprTreeGrammar.
-From Verif Require Import TypeCheck MsTextModel MsTextProofs.
+From Verif Require Import TypeCheck MsTextModel MsTextProofs MsTextCompose.
 Import ListNotations.
 Local Open Scope N_scope.
 
@@ -233,6 +233,80 @@ Example C10_ms_alias_nonvacuous :
 Proof.
   split; [vm_compute; reflexivity|]. split; [vm_compute; reflexivity|]. split; [vm_compute; reflexivity|].
   split; [vm_compute; discriminate|]. split; vm_compute; reflexivity.
+Qed.
+
+(* ---------------------------------------------------------------------------------------------
+   Composition of Part B (text <-> tree) with the miniscript text layer (tree <-> AST).
+   [from_str_model] = Tree::from_str, then the node vector read back as a tree, then from_tree
+   (`Miniscript::from_str` without `validate`); [ms_to_text m] = [print (to_tree m)].
+
+   link 1: the node vector of any tree reads back as that tree *)
+Theorem C10_tree_of_nodes : forall t, tree_of_nodes (tree_nodes t) = Some t.
+Proof. exact tree_of_nodes_flatten. Qed.
+Print Assumptions C10_tree_of_nodes.
+
+(* link 2: every name Display writes (fragment names, wrapper prefixes with ':', decimal numbers,
+   keys, hashes) consists of name characters, parentheses iff children - provided printed keys and
+   hashes do (no ( ) { } , # and inside the descriptor alphabet) *)
+Theorem C10_ms_to_tree_well_formed :
+  forall (print_key : key -> tbytes) (print_hash : hkind -> tbytes -> tbytes),
+  (forall k, forallb name_char (print_key k) = true) ->
+  (forall h b, forallb name_char (print_hash h b) = true) ->
+  forall m, well_formed (to_tree print_key print_hash m) = true.
+Proof. exact to_tree_well_formed. Qed.
+Print Assumptions C10_ms_to_tree_well_formed.
+
+(* ms_rt at text level.  The depth hypothesis is the expression parser's own limit
+   (MAX_RECURSION_DEPTH = 402 nested parentheses), stated on the printed tree. *)
+Theorem C10_ms_text_roundtrip :
+  forall (print_key : key -> tbytes) (parse_key : tbytes -> option key)
+         (print_hash : hkind -> tbytes -> tbytes) (parse_hash : hkind -> tbytes -> option tbytes)
+         (chk : ms -> bool),
+  (forall k, parse_key (print_key k) = Some k) ->
+  (forall h b, parse_hash h (print_hash h b) = Some b) ->
+  (forall k, forallb name_char (print_key k) = true) ->
+  (forall h b, forallb name_char (print_hash h b) = true) ->
+  forall m, ms_text_ok chk m = true -> depth (to_tree print_key print_hash m) <= MAX_RECURSION_DEPTH ->
+  from_str_model parse_key parse_hash chk (ms_to_text print_key print_hash m) = Ok m.
+Proof. exact text_roundtrip. Qed.
+Print Assumptions C10_ms_text_roundtrip.
+
+(* fixed point at text level: whatever text parses (any spelling, with or without checksum), the
+   printed text of the result parses to the same AST and prints identically again *)
+Theorem C10_ms_text_fixpoint :
+  forall (print_key : key -> tbytes) (parse_key : tbytes -> option key)
+         (print_hash : hkind -> tbytes -> tbytes) (parse_hash : hkind -> tbytes -> option tbytes)
+         (chk : ms -> bool),
+  (forall k, parse_key (print_key k) = Some k) ->
+  (forall h b, parse_hash h (print_hash h b) = Some b) ->
+  (forall k, forallb name_char (print_key k) = true) ->
+  (forall h b, forallb name_char (print_hash h b) = true) ->
+  forall s m, from_str_model parse_key parse_hash chk s = Ok m ->
+  depth (to_tree print_key print_hash m) <= MAX_RECURSION_DEPTH ->
+  from_str_model parse_key parse_hash chk (ms_to_text print_key print_hash m) = Ok m /\
+  (forall m', from_str_model parse_key parse_hash chk (ms_to_text print_key print_hash m) = Ok m' ->
+              ms_to_text print_key print_hash m' = ms_to_text print_key print_hash m).
+Proof. exact text_fixpoint. Qed.
+Print Assumptions C10_ms_text_fixpoint.
+
+(* non-vacuity: an instance satisfying all four hypotheses (decimal keys, unary hash bytes), the
+   example miniscript extended with a hash, within the depth limit, round trip at text level *)
+Definition ex_ms2 : ms := MAndV (MVerify (MSha256 [3; 0; 2])) ex_ms.
+Example C10_ms_text_nonvacuous :
+  (forall k, inst_parse_key (dec k) = Some k) /\
+  (forall h b, inst_parse_hash h (inst_print_hash h b) = Some b) /\
+  (forall k, forallb name_char (dec k) = true) /\
+  (forall h b, forallb name_char (inst_print_hash h b) = true) /\
+  ms_text_ok ex_chk ex_ms2 = true /\
+  depth (to_tree dec inst_print_hash ex_ms2) = 6 /\
+  firstn 24 (ms_to_text dec inst_print_hash ex_ms2) =
+    (* "and_v(v:sha256(11100110)" *)
+    [97;110;100;95;118;40;118;58;115;104;97;50;53;54;40;49;49;49;48;48;49;49;48;41] /\
+  from_str_model inst_parse_key inst_parse_hash ex_chk (ms_to_text dec inst_print_hash ex_ms2) = Ok ex_ms2.
+Proof.
+  split; [exact inst_key_rt|]. split; [exact inst_hash_rt|]. split; [exact dec_chars|].
+  split; [exact inst_hash_chars|]. split; [vm_compute; reflexivity|]. split; [vm_compute; reflexivity|].
+  split; vm_compute; reflexivity.
 Qed.
 
 (* ---- non-vacuity of the tree theorems: "a(b,c{d})" *)
